@@ -1,29 +1,40 @@
 #!/bin/sh
 # ./selftest/run.sh [<prop>|all]: every must-fail patch must make the property check report a VIOLATION.
+# Mutants run 4 at a time, each in its own scratch copy of /repo (removed afterwards).
 cd "$(dirname "$0")/.."
 export GOFLAGS=-mod=mod GOPROXY=off GOSUMDB=off GOTOOLCHAIN=local CGO_ENABLED=0
 want="${1:-all}"
 scratch="${VERIF_SCRATCH:-/var/tmp/verif-scratch.$$}"
-fail=0; n=0
 trap 'rm -rf "$scratch"' EXIT
+mkdir -p "$scratch"
+one() {
+  p=$1; prop=$(basename $(dirname $p)); d="$scratch/$(echo $p | tr '/.' '__')"
+  mkdir -p "$d"
+  rsync -a --exclude .git /repo/ "$d/repo/"
+  if ! (cd "$d/repo" && patch -s -p1 < "/verif/$p"); then echo "SELFTEST-ERROR $p does not apply"; rm -rf "$d"; return; fi
+  if ! (cd "$d/repo" && go build ./... 2>"$d/build.log"); then echo "SELFTEST-ERROR $p does not compile"; rm -rf "$d"; return; fi
+  out=$(./bin/govc check -repo "$d/repo" -spec /verif/spec -prop $prop -tier quick -evidence "$d/ev.json" -known /verif/known_findings.json -replay "$d/replay" 2>&1)
+  rc=$?
+  if [ $rc -eq 1 ] && echo "$out" | grep -q "^VIOLATION property=$prop"; then
+    echo "caught   $p: $(echo "$out" | grep '^VIOLATION' | head -1 | sed 's/.*obligation=//')"
+  else
+    echo "MISSED   $p (exit $rc)"
+  fi
+  rm -rf "$d"
+}
+if [ "$1" = "--one" ]; then scratch=$3; one "$2"; trap - EXIT; exit 0; fi
+list=""
 for dir in selftest/C*; do
   prop=$(basename $dir)
   [ "$want" != "all" ] && [ "$want" != "quick" ] && [ "$want" != "thorough" ] && [ "$want" != "$prop" ] && continue
-  for p in $dir/*.patch; do
-    [ -f "$p" ] || continue
-    n=$((n+1))
-    rm -rf "$scratch"; mkdir -p "$scratch"
-    rsync -a --exclude .git /repo/ "$scratch/repo/"
-    if ! (cd "$scratch/repo" && patch -s -p1 < "/verif/$p"); then echo "SELFTEST-ERROR $p does not apply"; fail=1; continue; fi
-    if ! (cd "$scratch/repo" && go build ./... 2>"$scratch/build.log"); then echo "SELFTEST-ERROR $p does not compile"; fail=1; continue; fi
-    out=$(./bin/govc check -repo "$scratch/repo" -spec /verif/spec -prop $prop -tier quick -evidence "$scratch/ev.json" -known /verif/known_findings.json -replay "$scratch/replay" 2>&1)
-    rc=$?
-    if [ $rc -eq 1 ] && echo "$out" | grep -q "^VIOLATION property=$prop"; then
-      echo "caught   $p: $(echo "$out" | grep '^VIOLATION' | head -1 | sed 's/.*obligation=//')"
-    else
-      echo "MISSED   $p (exit $rc)"; fail=1
-    fi
-  done
+  for p in $dir/*.patch; do [ -f "$p" ] && list="$list $p"; done
 done
+res="$scratch/results.txt"
+echo $list | tr ' ' '\n' | xargs -P 4 -I{} sh "$0" --one {} "$scratch" > "$res"
+sort "$res"
+n=$(echo $list | wc -w)
+bad=$(grep -c -v '^caught' "$res")
+got=$(grep -c '^caught' "$res")
+fail=0; [ "$bad" -ne 0 ] && fail=1; [ "$got" -ne "$n" ] && fail=1
 echo "selftest: $n mutants, fail=$fail"
 exit $fail
